@@ -22,7 +22,7 @@ FAMILIES = ["[x](/p%a)", "<http://example.com/50%2>", "[r]\n\n[r]: /u%f", "![i](
             "*a **b " * 30 + "c" + " b** a*" * 30, "&", "&#", "&#x", "&#1", "&a", "\\", "<", "<a", "<!--", "<?", "<![CDATA[", "```", "~~~\n", ">",
             "-", "1.", "1)", "#", "=", "\0", "\r", "\r\n", "\t", "\t\t-\t\ta", " \t \t", "[a]:", "[a]: <", "[a]: x '", "[\n]: x", "%", "x%%",
             "a\n===\n===", "- a\n  - b\n    - c\n      - d\n        - e", "> - > - a", "1. a\n2. b\n3) c", "[a](<b", "[a](b \"c", "![a](b 'c'",
-            "<a href=\"", "*" * 50, "_" * 31 + "a" + "_" * 30, "~" * 9 + "a" + "~" * 9, "***a** b*", "**a*b**c*", "a\\\n", "a  \n", "a\n    b", "\n\n\n",
+            "<a href=\"", "[a](<b\\", "[a](b\\", "[a](b \"c\\", "[a]: <b\\\n\n[a]", "[a]: b 'c\\\n\n[a]", "![a](b (c\\", "[a](\\", "*" * 50, "_" * 31 + "a" + "_" * 30, "~" * 9 + "a" + "~" * 9, "***a** b*", "**a*b**c*", "a\\\n", "a  \n", "a\n    b", "\n\n\n",
             "é" * 20, "𝄞*𝄞*", "*é*", "_é_é_", "ſ", "[ẞ]: /u\n[SS]", "<ſcript>\nx", "&#xD800;&#x110000;&#0;", "[a][]\n\n[a]: b", "[a]\n\n[A]: b\n[a]: c"]
 
 
